@@ -10,7 +10,7 @@ func main() {
 		c19.RunKeys(o)      // (a) store keys, segment codec
 		c19.RunPoolIds(o)   // (a) pool ids = chain id + kind addend
 		c19.RunSignBytes(o) // (b) sign bytes of certificates / consensus messages
-		c19.RunDecoders(o)
-		c19.RunHandlers(o) // (c) signed-but-malformed consensus messages through the real bft.HandleMessage  // (c) decoders of untrusted bytes and the handlers behind them
+		c19.RunDecoders(o)  // (c) decoders of untrusted bytes and the handlers behind them
+		c19.RunHandlers(o)  // (c) signed-but-malformed consensus messages through the real bft.HandleMessage
 	})
 }
